@@ -172,7 +172,7 @@ def observe(x):
     if isinstance(x, TreeNode):
         edges = {}
         for e in x.get_edge_vector(include_root=True):
-            edges[e.name] = [num(getattr(e, "length", None)), num({k: v for k, v in e.params.items()}),
+            edges[e.name] = [num(getattr(e, "length", None)), num({k: v for k, v in e.params.items() if k != "length"}),
                              None if e.parent is None else e.parent.name, [c.name for c in e.children]]
         return dict(kind="tree", cls=type(x).__name__, newick=x.get_newick(with_distances=True, with_node_names=True), tips=x.get_tip_names(), edges=edges)
     if isinstance(x, DistanceMatrix):
@@ -439,7 +439,6 @@ def case_view(p):
 
         routes["rich"] = _route(lambda: observe(deserialise_object(json.loads(json.dumps(v.to_rich_dict())))))
         routes["jsonvalid"] = _route(lambda: {"kind": "ok", "same": bool(json.dumps(v.to_rich_dict()))})
-    routes["copy_sliced"] = _route(lambda: observe(v.copy(sliced=True)))
     routes["pickle"] = _route(lambda: observe(pickle.loads(pickle.dumps(v))))
     routes["deepcopy"] = _route(lambda: observe(copy.deepcopy(v)))
     rd = v.to_rich_dict()
@@ -464,9 +463,15 @@ def apply_aln_ops(a, ops, log):
             elif k == "degap":
                 a = a.degap()
             elif k == "omit_gap_pos":
-                a = a.omit_gap_pos(allowed_gap_frac=op[1])
+                b = a.omit_gap_pos(allowed_gap_frac=op[1])
+                if b is None:
+                    raise ValueError("no positions left")
+                a = b
             elif k == "no_degenerates":
-                a = a.no_degenerates()
+                b = a.no_degenerates()
+                if b is None:
+                    raise ValueError("no positions left")
+                a = b
             elif k == "to_rna":
                 a = a.to_rna()
             elif k == "to_dna":
@@ -583,10 +588,13 @@ def case_imap(p):
                 m = m / op[1]
             elif k == "add":
                 m = m + m
-            elif k == "nongap":
-                m = m.nongap() if hasattr(m, "nongap") else m
             elif k == "without_gaps":
                 m = m.without_gaps()
+            elif k == "prime_lost":
+                # any IndelMap operation creates its lost spans from numpy integers
+                list(IndelMap(gap_pos=numpy.array([1]), gap_lengths=numpy.array([op[1]]), parent_length=5).spans)
+            elif k == "inverse":
+                m = m.inverse()
             elif k == "covered":
                 m = m.covered()
             elif k == "shadow":
@@ -1146,6 +1154,19 @@ def case_seq_db(p):
     return dict(cls=prov(s), obs=observe(s), routes=routes_for(s), oplog=log)
 
 
+def _import_all():
+    import importlib
+    import pkgutil
+
+    import cogent3
+
+    for m in pkgutil.walk_packages(cogent3.__path__, "cogent3."):
+        try:
+            importlib.import_module(m.name)
+        except Exception:  # noqa: BLE001
+            continue
+
+
 def case_inventory(p):
     """every class offering to_rich_dict/to_json + the registry, by introspection"""
     import importlib
@@ -1174,6 +1195,7 @@ def case_dispatch(p):
     """registry dispatch on a list of type strings: which function is chosen (by name), or the exception"""
     from cogent3.util import deserialise as d
 
+    _import_all()
     out = []
     for t in p["types"]:
         chosen = None
